@@ -12,7 +12,13 @@ RULE = ('strict parses only: all strings up to 2 (3) symbols over the LaTeX-sign
 EXHAUSTIVE = {'quick': True, 'thorough': True}
 ASSUMPTIONS = ['model of the parser stack validated only by this correspondence',
                'token boundaries of the base document are computed with the real tokenizer under the default state']
-PARTIAL = []
+PARTIAL = ['clause "a well-formed document to which a single unmatched delimiter has been added is always rejected" '
+           '(DESIGN C05_fault_rejected) has no Coq theorem: it is covered only by the correspondence and the oracle on every '
+           'generated fault case; proved in Coq (Properties/C05.v): C05_no_other_exception(_run, _any_fuel), '
+           'C05_result_shape, C05_errors_located(_top), C05_error_line_col',
+           'C05_no_other_exception allows OutOfFuel as an outcome of the model: termination is a theorem of C06, not of C05',
+           'the lineno/colno annotation of _ParsingContext.__exit__ is not part of the parser model (errors carry only pe_pos): '
+           'C05_error_line_col is about annotate = the C20 model applied to pe_pos; the real annotation is checked by the oracle']
 REFUTED = []
 CASE_TIMEOUT = 10.0
 case_from_desc = PC.case_from_desc
